@@ -25,7 +25,7 @@ FUNCS = ["litex.soc.interconnect.csr_eventmanager.EventSourcePulse", "litex.soc.
 
 
 class EvMon(Mon):
-    def __init__(self, kinds, step):
+    def __init__(self, kinds, step, busw=32):
         from litex.soc.interconnect import csr_eventmanager as em, csr_bus
         self.submodules.ev = ev = em.EventManager()
         srcs = []
@@ -43,11 +43,16 @@ class EvMon(Mon):
             srcs.append(s)
         ev.finalize()
         n = len(kinds)
-        self.bus = bus = csr_bus.Interface(data_width=32, address_width=14)
+        self.bus = bus = csr_bus.Interface(data_width=busw, address_width=14)
         csrs = ev.get_csrs()
         self.submodules.bank = bank = csr_bus.CSRBank(csrs, address=0, bus=bus)
         names = [c.name for c in csrs]
-        a_status, a_pending, a_enable = names.index("status"), names.index("pending"), names.index("enable")
+        nw = (n + busw - 1) // busw            # bus words per register (status, pending, enable all have n bits)
+        a_status, a_pending, a_enable = names.index("status") * nw, names.index("pending") * nw, names.index("enable") * nw
+
+        def chunk(k):          # bit range of bus word k of a register (big ordering: word 0 holds the most significant bits)
+            lo = (nw - 1 - k) * busw
+            return lo, min(n, lo + busw)
         trig = [s.trigger for s in srcs]
         self.free = [bus.adr, bus.we, bus.re, bus.dat_w] + trig
         self.asm = Signal(name_override="asm_bus")
@@ -64,8 +69,12 @@ class EvMon(Mon):
         sh_p = [reg(1, "sh_pending%d" % i) for i in range(n)]
         sh_d = [reg(1, "sh_trigd%d" % i) for i in range(n)]
         sh_re = reg(1, "sh_clear_strobe"); sh_r = reg(n, "sh_clear_data")
-        wr_pending = bus.we & (bus.adr == a_pending)
-        self.sync += [sh_re.eq(wr_pending), If(wr_pending, sh_r.eq(bus.dat_w[:n]))]
+        # write-one-to-clear register: every written word is latched (per word), the clear strobe is the write of the LAST word
+        wr_pending = bus.we & (bus.adr == a_pending + nw - 1)
+        self.sync += sh_re.eq(wr_pending)
+        for k in range(nw):
+            lo, hi = chunk(k)
+            self.sync += If(bus.we & (bus.adr == a_pending + k), sh_r[lo:hi].eq(bus.dat_w[:hi - lo]))
         inv = (sh_re == ev.pending.re) & (sh_r == ev.pending.r)
         bad_p = 0
         pend_now = []
@@ -99,15 +108,23 @@ class EvMon(Mon):
         # CSR view: status shows raw levels (0 for pulse), pending shows pending; read data one cycle later
         raw = Cat(*[(Constant(0, 1) if k == "pulse" else s.trigger) for k, s in zip(kinds, srcs)])
         pcat = Cat(*pend_now)
-        exp_r = Signal(32)
-        self.comb += Case(bus.adr, {a_status: exp_r.eq(raw), a_pending: exp_r.eq(pcat), a_enable: exp_r.eq(ev.enable.storage), "default": exp_r.eq(0)})
-        p_exp = self.reg(32, "p_exp"); p_chk = self.reg(1, "p_chk")
+        exp_r = Signal(busw)
+        cases = {"default": exp_r.eq(0)}
+        for k in range(nw):
+            lo, hi = chunk(k)
+            cases[a_status + k] = exp_r.eq(raw[lo:hi])
+            cases[a_pending + k] = exp_r.eq(pcat[lo:hi])
+            cases[a_enable + k] = exp_r.eq(ev.enable.storage[lo:hi])
+        self.comb += Case(bus.adr, cases)
+        p_exp = self.reg(busw, "p_exp"); p_chk = self.reg(1, "p_chk")
         self.sync += [p_exp.eq(exp_r), p_chk.eq(bus.re)]
         self.bad_csr = Signal(name_override="bad_csr_view")
         self.comb += self.bad_csr.eq(p_chk & (bus.dat_r != p_exp))
         # enable register: plain storage
         sh_en = reg(n, "sh_enable")
-        self.sync += If(bus.we & (bus.adr == a_enable), sh_en.eq(bus.dat_w[:n]))
+        for k in range(nw):
+            lo, hi = chunk(k)
+            self.sync += If(bus.we & (bus.adr == a_enable + k), sh_en[lo:hi].eq(bus.dat_w[:hi - lo]))
         self.bad_en = Signal(name_override="bad_enable")
         self.comb += self.bad_en.eq(ev.enable.storage != sh_en)
         if step:
@@ -129,9 +146,9 @@ class EvMon(Mon):
         self.showl = [bus.adr, bus.we, bus.re, bus.dat_w, bus.dat_r, ev.irq] + trig + [s.pending for s in srcs]
 
 
-def build(kinds, step, K):
-    m = EvMon(kinds, step)
-    name = "evm_%s_%s" % ("step" if step else "bmc", "_".join(k[0] if k != "falling" else "f" for k in kinds))
+def build(kinds, step, K, busw=32):
+    m = EvMon(kinds, step, busw)
+    name = "evm_%s_%s%s" % ("step" if step else "bmc", "_".join(k[0] if k != "falling" else "f" for k in kinds) if len(kinds) <= 4 else "%dsources" % len(kinds), "" if busw == 32 else "_bus%d" % busw)
     wit = dict(irq_raised=m.w_irq)
     if any(k != "level" for k in kinds):
         wit["trigger_coincides_with_clear"] = m.w_clr
@@ -195,6 +212,10 @@ def jobs(tier):
         bm += [("level", "pulse"), ("rising",), ("falling", "pulse"), ("rising", "level", "level", "pulse"), ("pulse", "pulse")]
     for kinds in bm:
         js.append(Job("evm_bmc_" + "_".join(k[0] if k != "falling" else "f" for k in kinds), build, dict(kinds=list(kinds), step=False, K=14 if T else 10), cost=3))
+    # a pending register that spans two CSR bus words (9 sources on the 8-bit bus): one step from an arbitrary state + BMC through the bus
+    wide = ["pulse", "rising", "level", "pulse", "falling", "pulse", "level", "rising", "pulse"]
+    js.append(Job("evm_step_9sources_bus8", build, dict(kinds=wide, step=True, K=1, busw=8), cost=2))
+    js.append(Job("evm_bmc_9sources_bus8", build, dict(kinds=wide, step=False, K=10 if not T else 14, busw=8), cost=6))
     js.append(Job("shared_irq", build_shared, {}))
     return js
 
